@@ -178,13 +178,18 @@ func renderFile(fc *fileCase) {
 			if r.Taxid > 0 {
 				lines = append(lines, fmt.Sprintf("                     /db_xref=\"taxon:%d\"", r.Taxid))
 			}
-			lines = append(lines, "ORIGIN      ")
-			for p := 0; p < len(seq); p += 60 {
-				e := p + 60
-				if e > len(seq) {
-					e = len(seq)
+			if len(seq) == 0 {
+				// a CONTIG record: no ORIGIN section, no nucleotides of its own
+				lines = append(lines, "CONTIG      join(AB000001.1:1..20,gap(980))")
+			} else {
+				lines = append(lines, "ORIGIN      ")
+				for p := 0; p < len(seq); p += 60 {
+					e := p + 60
+					if e > len(seq) {
+						e = len(seq)
+					}
+					lines = append(lines, fmt.Sprintf("%9d %s", p+1, strings.Join(fold(seq[p:e], 10), " ")))
 				}
-				lines = append(lines, fmt.Sprintf("%9d %s", p+1, strings.Join(fold(seq[p:e], 10), " ")))
 			}
 			lines = append(lines, "//")
 		case fmEmbl:
@@ -840,8 +845,25 @@ func runC01(rc *RunCtx) {
 		// the guessing parser makes of free text is not stated anywhere
 		cfg.Parsed = false
 	}
+	if mode != 1 && format == fmGenbank && t.Choose(3) == 2 {
+		// some records are CONTIG records (generated files only: the sweep corpus is shared between runs) (after, before or between ordinary ones)
+		for i := range fc.Recs {
+			if t.Choose(3) == 2 {
+				fc.Recs[i].Seq = ""
+			}
+		}
+		renderFile(fc)
+		rc.Probe("genbank_contig_records")
+	}
 	data := fc.Text
-	if cfg.Stage >= 2 && cfg.Codec > 0 {
+	if cfg.Stage >= 2 && t.Choose(5) == 4 {
+		// a byte order mark in front of the text (an editor's doing), inside the compressed stream
+		data = append([]byte{0xEF, 0xBB, 0xBF}, fc.Text...)
+		rc.Probe("byte_order_mark")
+		if cfg.Stage >= 2 && cfg.Codec > 0 {
+			data = compress(cfg.Codec, data)
+		}
+	} else if cfg.Stage >= 2 && cfg.Codec > 0 {
 		data = compress(cfg.Codec, fc.Text)
 	}
 	rc.Out.Sample = map[string]any{"format": fm, "records": len(fc.Recs), "bytes": len(fc.Text), "shape": fc.Shape, "config": cfg.String()}
